@@ -122,15 +122,13 @@ def check_alphabet(chk) -> None:
         and astq.same(b_expr.key, b_expr.generators[0].target)
         and (astq.match(b_expr.value, "list()") is not None or astq.match(b_expr.value, "[]") is not None)
     )
-    chk.expect(
-        fresh,
-        "decoder-stacks-fresh",
-        post.where,
-        "begins holds one fresh list per opening character",
-        "begins is not a dict comprehension creating one fresh list per opening character (shared or missing stacks mix bracket types)",
-        K(post, "begins"),
-        found=norm(b_expr) if b_expr is not None else None,
-    )
+    shared = b_expr is not None and (astq.match(b_expr, "dict.fromkeys(opening, X_)") is not None or (isinstance(b_expr, ast.DictComp) and isinstance(b_expr.value, ast.Name)))
+    if fresh:
+        chk.ok("decoder-stacks-fresh", post.where, "begins holds one fresh list per opening character")
+    elif shared:
+        chk.violation("decoder-stacks-fresh", post.where, "all bracket types share one stack object: positions of different bracket types are mixed", K(post, "begins"), found=norm(b_expr))
+    else:
+        chk.error("decoder-stacks-fresh", post.where, f"construction of the per-type stacks not recognised: {norm(b_expr) if b_expr is not None else None}")
     # FCFS availability table as long as the alphabet
     av = astq.single_def(fcfs.node, "available")
     n_av = None
@@ -826,6 +824,8 @@ def check_decoder(chk) -> None:
         "the decoder does not record exactly (popped opening position, current position) per closing character",
         K(fi, "record"),
     )
+    exits = [n for n in astq.walk_no_nested(fi.node) if isinstance(n, (ast.Return, ast.Break, ast.Continue, ast.Raise))]
+    chk.expect(not exits, "decoder-early-exit", fi.site(exits[0]) if exits else fi.where, "the scan has no early exit: every position of the structure is decoded", f"`{norm(exits[0])}` leaves the decoder early: the rest (or all) of the notation is not decoded" if exits else "", K(fi, "early-exit"), found=[norm(e) for e in exits])
     # pairs starts empty
     inits = [s for s in fi.node.body if astq.match(s, "self.pairs = []") is not None]
     chk.expect(bool(inits), "decoder-init", fi.where, "self.pairs starts empty", "self.pairs is not initialised to an empty list", K(fi, "init"))
@@ -962,14 +962,15 @@ def check_fcfs(chk) -> None:
         chk.error("fcfs-loop", fi.site(outer), "expected one inner loop over earlier regions")
         return
     inner = inners[0]
-    chk.expect(
-        len(av_assign) == 1 and outer.body.index(av_assign[0]) < outer.body.index(inner) and len(astq.assignments(fi.node, "available")) == 1,
-        "fcfs-available-reset",
-        fi.site(outer),
-        "the availability table is rebuilt (all True) for every region before the scan",
-        "`available` is not rebuilt for every region before scanning the earlier ones: levels blocked for one stem stay blocked for the next",
-        K(fi, "available-reset"),
-    )
+    all_av = [st for st, _ in astq.assignments(fi.node, "available")]
+    if not all_av:
+        chk.error("fcfs-available-reset", fi.site(outer), "no availability table `available` found (idiom not recognised)")
+    elif len(av_assign) == 1 and outer.body.index(av_assign[0]) < outer.body.index(inner) and len(all_av) == 1:
+        chk.ok("fcfs-available-reset", fi.site(outer), "the availability table is rebuilt (all True) for every region before the scan")
+    elif not av_assign and all(not any(st is n for n in ast.walk(outer)) for st in all_av):
+        chk.violation("fcfs-available-reset", fi.site(all_av[0]), "`available` is built once, outside the loop over regions: levels blocked for one stem stay blocked for the next", K(fi, "available-reset"))
+    else:
+        chk.error("fcfs-available-reset", fi.site(outer), "placement of the availability table not recognised")
     if av_assign:
         v = av_assign[0].value
         all_true = (isinstance(v, ast.ListComp) and isinstance(v.elt, ast.Constant) and v.elt.value is True) or astq.match(v, "[True] * N_") is not None
@@ -988,7 +989,7 @@ def check_fcfs(chk) -> None:
     exits = [n for b in inner.body for n in ast.walk(b) if isinstance(n, (ast.Break, ast.Continue, ast.Return))]
     chk.expect(
         not exits,
-        "fcfs-earlier",
+        "fcfs-scan-exit",
         fi.site(inner),
         "the scan has no early exit",
         "the scan over earlier regions contains break/continue/return: a crossing earlier stem can be missed and its level reused",
@@ -998,7 +999,10 @@ def check_fcfs(chk) -> None:
     # marking under the conflict predicate
     marks = [s for s in ast.walk(inner) if isinstance(s, ast.Assign) and astq.match(s, "available[orders[J_]] = False") is not None]
     if len(marks) != 1:
-        chk.violation("fcfs-mark", fi.site(inner), "the level of a crossing earlier region is not marked unavailable exactly once (`available[orders[j]] = False`)", K(fi, "mark"))
+        if chk.repo.shape_status(MOD, fi.qualname) == "shape":
+            chk.error("fcfs-mark", fi.site(inner), "marking idiom `available[orders[j]] = False` not found")
+        else:
+            chk.violation("fcfs-mark", fi.site(inner), "the level of a crossing earlier region is not marked unavailable exactly once (`available[orders[j]] = False`)", K(fi, "mark"))
         return
     mark = marks[0]
     jm = astq.match(mark, "available[orders[J_]] = False")["J_"]
@@ -1110,6 +1114,7 @@ def run(chk) -> None:
     chk.trusted = ["CPython ast and re._parser", "paper argument composing L1-L8 (DESIGN.md §4 C01)"]
     chk.assumptions = ["valid BPSEQ: symmetric pairing, positions of different pairs distinct", "at most 30 bracket levels"]
     repo = chk.repo
+    chk.robust |= ROBUST
     check_alphabet(chk)
     check_stems(chk)
     check_regions(chk)
@@ -1135,6 +1140,15 @@ def run(chk) -> None:
         fi = repo.func(MOD, q)
         n = len([c for c in ast.walk(fi.node) if isinstance(c, ast.Call) and isinstance(c.func, ast.Attribute) and c.func.attr.endswith("__make_dot_bracket")])
         chk.expect(n >= 1, "encoder-uses-fill", fi.where, f"{n} notation(s) built by the verified fill", "no notation is built by __make_dot_bracket", K(fi, "uses-fill"))
+
+
+# rules whose failure is positive evidence (evaluated facts, closed-world findings); the others read a pinned idiom
+ROBUST = {
+    "alphabet-encoder", "alphabet-agree", "alphabet-30", "alphabet-matches", "alphabet-fcfs-levels", "alphabet-multistrand", "decoder-stacks-fresh",
+    "conflict-predicate", "conflict-graph", "conflict-pairs", "stems-filter", "stems-run", "region-triple", "fill-width", "fill-trips", "fill-stores",
+    "decoder-lifo", "decoder-early-exit", "fcfs-scan-exit", "fcfs-available-reset", "fcfs-mark",
+    "components-walk", "components-start", "greedy-perms", "greedy-earlier-exit", "greedy-mark", "product", "product-skip",
+}
 
 
 MANIFEST_ENTRY = {
